@@ -15,6 +15,7 @@ fn engine_by_name(n: &str) -> Option<Box<dyn Engine>> {
         "sinks" => Some(Box::new(engines::sinks::Sinks)),
         "pq" => Some(Box::new(engines::pq::Pq)),
         "sched" => Some(Box::new(engines::sched::Sched)),
+        "synccell" => Some(Box::new(engines::synccell::SyncCellEngine)),
         _ => None,
     }
 }
